@@ -66,6 +66,25 @@ class CallMixin:
                 if v.ty == NONE:
                     return mk_bool(False)
                 return Val(BOOL, z3.And(v.t > 0, v.t < st.alloc))
+            if nm == "old_objects_unchanged" and st.spec:
+                # frame invariant: every object that existed on entry still has its entry value in the named fields
+                base = st.old if st.old is not None else st
+                conj = []
+                for a in e.args:
+                    cls, f = a.value.rsplit(".", 1)
+                    cls = TYPE_ALIASES.get(cls, cls)
+                    if (cls, f) in (("Dict", "map"), ("List", "items")):
+                        keys = [k for k in sorted(st.heap) if k.startswith(f"{cls}.{f}.")]
+                    else:
+                        keys = [f"{cls}.{f}"] + ([f"{cls}.{f}!has"] if CLASSDEFS.get(cls, {}).get("record") else [])
+                    for key in keys:
+                        cur, arr0 = st.heap.get(key), base.heap.get(key, self.init_heap.get(key))
+                        if cur is None or arr0 is None or cur.eq(arr0):
+                            continue
+                        r = fresh("r", I)
+                        conj.append(z3.ForAll([r], z3.Implies(z3.And(0 < r, r < base.alloc), z3.Select(cur, r) == z3.Select(arr0, r)),
+                                              patterns=[z3.Select(cur, r)]))
+                return Val(BOOL, z3.And(*conj) if conj else z3.BoolVal(True))
             if nm == "fresh" and st.spec:
                 v = self.eval(e.args[0], st)
                 base = st.old.alloc if st.old is not None else st.alloc
@@ -436,6 +455,17 @@ class CallMixin:
         for p, v in env.items():
             if p in c["params"]:
                 ty = parse_type(c["params"][p])
+                if v.ty.name == "Obj" and v.ty.args[0] == "sqlite3.Cursor" and ty.name == "List":
+                    rows = v.x.get("rows") or st.ghost.get("g:cursor:" + v.t.sexpr())
+                    if rows is not None:
+                        v = rows            # a cursor passed where its rows are iterated
+                if v.ty.name == "Opt" and v.ty.args[0] == ty:
+                    # an Optional passed where the contract declares the plain type: "is not None" is part of the
+                    # callee's precondition
+                    self.oblige(st, f"call:{short}/arg-type:{p}", z3.Not(self.is_none(v, st)),
+                                clause=f"{p} is not None", site=getattr(node, "lineno", None))
+                    st.assume(z3.Not(self.is_none(v, st)))
+                    v = Val(ty, v.t) if is_reflike(ty) else Val(ty, opt_of(v.ty).val(v.t))
                 try:
                     penv[p] = v if v.ty == ty else (from_sort_term(to_sort_term(v, ty), ty) if ty.name != "Tuple" else v)
                 except Unsupported:
@@ -478,6 +508,12 @@ class CallMixin:
             self.assume_ref_range(gv, st)
         # fields of objects allocated by the callee
         for wf in c.get("writes_fresh", []):
+            if wf == "*":
+                # anything of the objects the callee allocated
+                for k3 in sorted(set(list(st.heap.keys()) + list(self.init_heap.keys()))):
+                    arr3 = st.heap.get(k3, self.init_heap.get(k3))
+                    self._havoc_fresh_key(k3, arr3.sort().range(), pre.alloc, st)
+                continue
             self.havoc_fresh_region(wf, pre.alloc, st)
         # exceptional exits
         for exc in c["raises"]:
@@ -504,24 +540,36 @@ class CallMixin:
             st.assume(self.spec_truth(e, qenv, st, old=pre))
         return result
 
+    def fresh_key(self, key):
+        """writes_fresh entry -> (heap key or prefix, element sort or None, is_prefix)"""
+        cls, f = key.rsplit(".", 1)
+        cls = TYPE_ALIASES.get(cls, cls)
+        if f.startswith("map:"):
+            vty = parse_type(f[4:])
+            return self._map_key(vty), z3.ArraySort(S, opt_sort(sort_of(vty)).sort), False
+        if cls == "List":
+            if f == "len":
+                return "List.len", I, False
+            return "List.items.", None, True          # the item arrays of every element type
+        fty = self.field_type(cls, f.split("!")[0])
+        if fty is None:
+            raise EngineError(f"writes_fresh {key}: unknown field")
+        return f"{cls}.{f}", (B if f.endswith("!has") else sort_of(fty)), False
+
     def havoc_fresh_region(self, key, alloc0, st):
         """The callee initialised field `key` of objects it allocated: values at refs >= alloc0 unknown,
         all older objects keep their value (frame)."""
-        cls, f = key.rsplit(".", 1)
-        cls = TYPE_ALIASES.get(cls, cls)
-        fty = self.field_type(cls, f.split("!")[0])
-        if f.startswith("map:"):
-            vty = parse_type(f[4:])
-            k2 = self._map_key(vty)
-            sort = z3.ArraySort(S, opt_sort(sort_of(vty)).sort)
-        elif cls == "List":
-            k2 = "List." + f
-            sort = I if f == "len" else z3.ArraySort(I, I)
-        else:
-            if fty is None:
-                raise EngineError(f"writes_fresh {key}: unknown field")
-            k2 = f"{cls}.{f}"
-            sort = B if f.endswith("!has") else sort_of(fty)
+        k2, sort, is_prefix = self.fresh_key(key)
+        if is_prefix:
+            for k3 in sorted(set(list(st.heap.keys()) + list(self.init_heap.keys()))):
+                if k3.startswith(k2):
+                    arr3 = st.heap.get(k3, self.init_heap.get(k3))
+                    self._havoc_fresh_key(k3, arr3.sort().range(), alloc0, st)
+            return
+        self._havoc_fresh_key(k2, sort, alloc0, st)
+
+    def _havoc_fresh_key(self, k2, sort, alloc0, st):
+        f = k2.rsplit(".", 1)[-1]
         arr = st.field(k2, sort)
         new = fresh("wf_" + f, arr.sort())
         r = fresh("r", I)
@@ -564,18 +612,51 @@ class CallMixin:
             for x in v.t:
                 self.assume_ref_range(x, st)
 
-    def havoc_modifies(self, mods, env, st):
+    def modifies_cells(self, mods, env, st):
+        """Resolve the modifies patterns of a contract against the state `st` (the callee's pre-state):
+        ("heap",) | ("alloc",) | ("key", key) whole field array | ("cell", key, sort, ref, record) one cell
+        | ("prefix", prefix, ref) every field of one object of a class."""
+        out = []
         for m in mods:
-            if m == "alloc":
-                st.new_epoch_at_least(st.alloc)
+            if m in ("alloc", "heap"):
+                out.append((m,))
                 continue
-            if m == "heap":
-                for k in list(st.heap.keys()) + list(self.init_heap.keys()):
-                    arr = st.heap.get(k, self.init_heap.get(k))
-                    st.set_field_array(k, fresh("hv_" + k, arr.sort()))
-                st.new_epoch_at_least(st.alloc)
+            star = m.endswith(".*")
+            contents = m.endswith("[]")
+            node = ast.parse(m[:-2] if (star or contents) else m, mode="eval").body
+            if contents:
+                # param.field[] : the contents of the dict / list held in a field of the parameter
+                if not (isinstance(node, ast.Attribute) and isinstance(node.value, ast.Name) and node.value.id in env):
+                    raise EngineError(f"modifies pattern {m!r} not understood")
+                obj = env[node.value.id]
+                if obj.ty.name == "Opt":
+                    obj = Val(obj.ty.args[0], obj.t)
+                cls = obj.ty.args[0]
+                fty = self.field_type(cls, node.attr)
+                if fty is not None and fty.name == "Opt":
+                    fty = fty.args[0]
+                if fty is None or fty.name not in ("Dict", "List"):
+                    raise EngineError(f"modifies {m}: {node.attr} is not a dict or list field")
+                inner = st.read(f"{cls}.{node.attr}", I, obj.t)
+                if fty.name == "Dict":
+                    vty = fty.args[0] or JV
+                    out.append(("cell", self._map_key(vty), z3.ArraySort(S, opt_sort(sort_of(vty)).sort), inner, False))
+                else:
+                    out.append(("cell", "List.len", I, inner, False))
+                    out.append(("cell", self._items_key(fty.args[0]), z3.ArraySort(I, sort_of(fty.args[0])), inner, False))
                 continue
-            node = ast.parse(m, mode="eval").body
+            if star:
+                # param.field.* : every cell of the object held in a field of the parameter (e.g. the tables of self.conn)
+                if not (isinstance(node, ast.Attribute) and isinstance(node.value, ast.Name) and node.value.id in env):
+                    raise EngineError(f"modifies pattern {m!r} not understood")
+                obj = env[node.value.id]
+                cls = obj.ty.args[0]
+                fty = self.field_type(cls, node.attr)
+                if fty is None or fty.name != "Obj":
+                    raise EngineError(f"modifies {m}: {node.attr} is not an object field")
+                inner = st.read(f"{cls}.{node.attr}", I, obj.t)
+                out.append(("prefix", fty.args[0] + ".", inner))
+                continue
             if isinstance(node, ast.Attribute) and isinstance(node.value, ast.Attribute) and isinstance(node.value.value, ast.Name) \
                     and node.value.value.id in env:
                 # param.field.sub : a cell of the object held in a field of the parameter (e.g. self.conn.committed)
@@ -588,7 +669,7 @@ class CallMixin:
                 key = f"{fty.args[0]}.{node.attr}"
                 arr = st.heap.get(key, self.init_heap.get(key))
                 srt = arr.sort().range() if arr is not None else I
-                st.write(key, srt, inner, fresh("hv_" + node.attr, srt))
+                out.append(("cell", key, srt, inner, False))
                 continue
             if isinstance(node, ast.Attribute) and isinstance(node.value, ast.Name) and node.value.id in env:
                 obj = env[node.value.id]
@@ -598,29 +679,109 @@ class CallMixin:
                 fty = self.field_type(cls, node.attr)
                 if fty is None:
                     raise EngineError(f"modifies {m}: unknown field")
-                key = f"{cls}.{node.attr}"
-                st.write(key, sort_of(fty), obj.t, fresh("hv_" + node.attr, sort_of(fty)))
-                if CLASSDEFS.get(cls, {}).get("record"):
-                    st.write(key + "!has", B, obj.t, fresh("hv_has", B))      # presence of the key may change too
+                out.append(("cell", f"{cls}.{node.attr}", sort_of(fty), obj.t, bool(CLASSDEFS.get(cls, {}).get("record"))))
                 continue
             if isinstance(node, ast.Attribute) and isinstance(node.value, ast.Name):
                 # Class.field: whole field array
                 cls = TYPE_ALIASES.get(node.value.id, node.value.id)
+                if (cls, node.attr) in (("Dict", "map"), ("List", "items")):
+                    out.append(("keyprefix", f"{cls}.{node.attr}."))      # the maps / item arrays of every element type
+                    continue
+                if (cls, node.attr) == ("List", "len"):
+                    out.append(("key", "List.len", z3.ArraySort(I, I)))
+                    continue
                 fty = self.field_type(cls, node.attr)
                 if fty is None:
                     raise EngineError(f"modifies {m}: unknown field")
-                key = f"{cls}.{node.attr}"
-                st.set_field_array(key, fresh("hv_" + node.attr, z3.ArraySort(I, sort_of(fty))))
+                out.append(("key", f"{cls}.{node.attr}", z3.ArraySort(I, sort_of(fty))))
+                if CLASSDEFS.get(cls, {}).get("record"):
+                    out.append(("key", f"{cls}.{node.attr}!has", z3.ArraySort(I, B)))
                 continue
             if isinstance(node, ast.Name) and node.id in env:
                 v = env[node.id]
+                if v.ty.name == "Opt":
+                    v = Val(v.ty.args[0], v.t)
                 if v.ty.name == "List":
-                    self.havoc_list(v, st)
+                    out.append(("cell", "List.len", I, v.t, False))
+                    if v.ty.args[0] is not None:
+                        ety = v.ty.args[0]
+                        out.append(("cell", self._items_key(ety), z3.ArraySort(I, sort_of(ety)), v.t, False))
                     continue
                 if v.ty.name == "Dict":
-                    self.havoc_dict(v, st)
+                    vty = self.dict_vty(v) or JV
+                    out.append(("cell", self._map_key(vty), z3.ArraySort(S, opt_sort(sort_of(vty)).sort), v.t, False))
                     continue
             raise EngineError(f"modifies pattern {m!r} not understood")
+        return out
+
+    def havoc_modifies(self, mods, env, st):
+        for cell in self.modifies_cells(mods, env, st):
+            kind = cell[0]
+            if kind == "alloc":
+                st.new_epoch_at_least(st.alloc)
+            elif kind == "heap":
+                for k in list(st.heap.keys()) + list(self.init_heap.keys()):
+                    arr = st.heap.get(k, self.init_heap.get(k))
+                    st.set_field_array(k, fresh("hv_" + k, arr.sort()))
+                st.new_epoch_at_least(st.alloc)
+            elif kind == "key":
+                st.set_field_array(cell[1], fresh("hv_" + cell[1].rsplit(".", 1)[-1], cell[2]))
+            elif kind == "keyprefix":
+                for k in sorted(set(list(st.heap.keys()) + list(self.init_heap.keys()))):
+                    if k.startswith(cell[1]):
+                        arr = st.heap.get(k, self.init_heap.get(k))
+                        st.set_field_array(k, fresh("hv_" + k.rsplit(".", 1)[-1], arr.sort()))
+            elif kind == "prefix":
+                for k in sorted(set(list(st.heap.keys()) + list(self.init_heap.keys()))):
+                    if k.startswith(cell[1]):
+                        arr = st.heap.get(k, self.init_heap.get(k))
+                        st.write(k, arr.sort().range(), cell[2], fresh("hv_" + k.rsplit(".", 1)[-1], arr.sort().range()))
+            else:
+                _, key, srt, ref, record = cell
+                st.write(key, srt, ref, fresh("hv_" + key.rsplit(".", 1)[-1], srt))
+                if key == "List.len":
+                    st.assume(st.read("List.len", I, ref) >= 0)
+                if record:
+                    st.write(key + "!has", B, ref, fresh("hv_has", B))      # presence of the key may change too
+
+    def check_frame(self, c, o, env, tag="frame"):
+        """Frame obligation of a function under contract: every heap cell that existed on entry and is not named by
+        `modifies` holds its entry value on exit; cells of objects allocated by the function may differ only in the
+        fields listed under writes_fresh."""
+        mods = c["modifies"]
+        if "heap" in mods:
+            return
+        old = o.old
+        alloc0 = old.alloc
+        cells = self.modifies_cells(mods, env, old)
+        whole = {x[1] for x in cells if x[0] == "key"}
+        at = {}
+        for x in cells:
+            if x[0] == "cell":
+                at.setdefault(x[1], []).append(x[3])
+                if x[4]:
+                    at.setdefault(x[1] + "!has", []).append(x[3])
+        prefixes = [(x[1], x[2]) for x in cells if x[0] == "prefix"]
+        keyprefixes = [x[1] for x in cells if x[0] == "keyprefix"]
+        fresh_exact, fresh_prefix = set(), []
+        for wf in c.get("writes_fresh", []):
+            if wf == "*":
+                fresh_prefix.append("")
+                continue
+            k2, _, is_prefix = self.fresh_key(wf)
+            (fresh_prefix.append(k2) if is_prefix else fresh_exact.add(k2))
+        for key in sorted(o.heap):
+            arr = o.heap[key]
+            arr0 = old.heap.get(key, self.init_heap.get(key))
+            if arr0 is None or arr.eq(arr0) or key in whole or any(key.startswith(kp) for kp in keyprefixes):
+                continue
+            r = fresh("fr", I)
+            excl = [r > 0] + [r != ref for ref in at.get(key, [])]
+            excl += [r != ref for (pre, ref) in prefixes if key.startswith(pre)]
+            if key in fresh_exact or any(key.startswith(pf) for pf in fresh_prefix):
+                excl.append(r < alloc0)
+            goal = z3.Implies(z3.And(*excl) if excl else z3.BoolVal(True), z3.Select(arr, r) == z3.Select(arr0, r))
+            self.oblige(o, f"{tag}/{key}", goal, clause=f"modifies {mods} writes_fresh {c.get('writes_fresh', [])}: {key} unchanged elsewhere")
 
     # -- spec primitives -----------------------------------------------------------------------
     def spec_old(self, e, st, which=None):
